@@ -347,6 +347,31 @@ func (r *run) crashPoint(V *Node, k int, lower, L uint32) {
 		r.compare(n, L, "after-crash-resume")
 		if r.fail != nil {
 			r.fail.Msg = fmt.Sprintf("crash at batch %d/%d, recovered at %d: %s", k, V.Disk.Batches(), h, r.fail.Msg)
+			return
+		}
+		// what the recovered node wrote while it caught up must itself be a database a node starts from: one run in
+		// two ends with a clean stop and another start (whatever the first start derived from the half-written
+		// state - header hash pages, caches, GC bookkeeping - has been carried through the blocks since)
+		if r.tape.Chance(1, 2) {
+			var rerr error
+			if v := sim.Recover(func() { rerr = n.Restart() }); v != nil {
+				v.Msg = fmt.Sprintf("crash at batch %d/%d, recovered at %d, resumed to %d: the next clean restart panicked: %s", k, V.Disk.Batches(), h, L, v.Msg)
+				r.violate(v)
+				return
+			}
+			if rerr != nil {
+				r.violate(sim.Violatef("crash-resume-restart-failed", "", "crash at batch %d/%d, recovered at height %d, resumed to %d, stopped cleanly: the database cannot be opened again: %v", k, V.Disk.Batches(), h, L, rerr))
+				return
+			}
+			r.out.Probes["crash_resume_then_clean_restart"]++
+			if n.BC.BlockHeight() != L {
+				r.violate(sim.Violatef("crash-height", "", "crash at batch %d, recovered at %d, resumed to %d: after a clean restart the node is at height %d", k, h, L, n.BC.BlockHeight()))
+				return
+			}
+			r.compare(n, L, "after-crash-resume-restart")
+			if r.fail != nil {
+				r.fail.Msg = fmt.Sprintf("crash at batch %d/%d, recovered at %d, resumed and restarted: %s", k, V.Disk.Batches(), h, r.fail.Msg)
+			}
 		}
 	}
 }
